@@ -98,6 +98,8 @@ func verifSQLOf(class, pos int) string {
 // models must never be handed a statement outside the table).
 func verifClassify(q string) (int, int64) {
 	switch q {
+	case "":
+		return vEmpty, 0 // only reachable if the code under test stops skipping empty statements
 	case verifSQLPrep:
 		return vPrep, 0
 	case verifSQLStep:
@@ -240,6 +242,9 @@ func verifLiteExec(q string) (sql.Result, error) {
 	if err := verifL.step(class, id); err != nil {
 		return nil, err
 	}
+	if class == vEmpty {
+		return verifRes{0, 0}, nil // go-sqlite3: nothing to run
+	}
 	return verifRes{verifL.lastID, 1}, nil
 }
 
@@ -270,19 +275,29 @@ func verifConnExec(c *sql.Conn, ctx context.Context, q string, args ...any) (sql
 func verifConnQuery(c *sql.Conn, ctx context.Context, q string, args ...any) (*sql.Rows, error) {
 	return verifLiteQuery(q)
 }
+// like the real methods, the models dereference their receiver
+func verifTxCheck(t *sql.Tx) {
+	if t == nil || t != verifTheTx {
+		panic("runtime error: invalid memory address or nil pointer dereference (nil or unknown *sql.Tx)")
+	}
+}
+
 func verifTxExec(t *sql.Tx, ctx context.Context, q string, args ...any) (sql.Result, error) {
+	verifTxCheck(t)
 	if verifTxDone {
 		return nil, sql.ErrTxDone
 	}
 	return verifLiteExec(q)
 }
 func verifTxQuery(t *sql.Tx, ctx context.Context, q string, args ...any) (*sql.Rows, error) {
+	verifTxCheck(t)
 	if verifTxDone {
 		return nil, sql.ErrTxDone
 	}
 	return verifLiteQuery(q)
 }
 func verifTxCommit(t *sql.Tx) error {
+	verifTxCheck(t)
 	if verifTxDone {
 		return sql.ErrTxDone
 	}
@@ -290,6 +305,7 @@ func verifTxCommit(t *sql.Tx) error {
 	return verifL.step(vCommit, 0)
 }
 func verifTxRollback(t *sql.Tx) error {
+	verifTxCheck(t)
 	if verifTxDone {
 		return sql.ErrTxDone
 	}
@@ -350,7 +366,7 @@ func verifStmtReadOnly(d *DB, q string, conn *sql.Conn) (bool, error) {
 	if err := verifL.prepare(class); err != nil {
 		return false, err
 	}
-	return class == vRead || class == vBegin || class == vCommit || class == vRollback, nil
+	return class == vRead || class == vBegin || class == vCommit || class == vRollback || class == vEmpty, nil
 }
 
 // ---------------------------------------------------------------------------------------------
@@ -677,32 +693,56 @@ func verifCompare(s verifShape, o verifObs, e verifExp, direct bool) string {
 var verifAllClasses = []int{vOK, vPrep, vStep, vRead, vEmpty, vRet, vReadPrep, vBegin, vCommit, vRollback}
 var verifCoreClasses = []int{vOK, vPrep, vStep, vRead, vEmpty}
 
+var verifExplicitClasses = []int{vOK, vPrep, vStep, vRead, vRet, vCommit, vRollback}
+
 func verifC13Shape(unified bool) verifShape {
 	s := verifShape{unified: unified}
-	// bounds: "wide" = every class, short; "long" = core classes, longer, no leftover transaction
-	wide := verifChoice("wide", 2) == 1
+	// bounds (quick / thorough), n = number of statements drawn:
+	//   band 0 "long":     core classes {ok, prep, step, read, empty},          n = 1..4 / 1..5
+	//   band 1 "wide":     all ten classes,                                     n = 1..2 / 1..4
+	//   band 2 "leftover": all ten classes, the write connection is still inside an explicit
+	//                      transaction (one pending row) left by an earlier request, n = 1..2 / 1..3
+	//   band 3 "explicit": Transaction=false, BEGIN followed by n statements of
+	//                      {ok, prep, step, read, ret, COMMIT, ROLLBACK},       n = 1..3 / 1..4
+	band := verifChoice("band", 4)
+	thorough := verifTier() == 1
 	maxN, classes := 4, verifCoreClasses
-	if wide {
-		maxN, classes = 3, verifAllClasses
-	}
-	if verifTier() == 1 {
-		maxN += 2
-		if wide {
+	switch band {
+	case 0:
+		if thorough {
+			maxN = 5
+		}
+	case 1:
+		maxN, classes = 2, verifAllClasses
+		if thorough {
+			maxN = 4
+		}
+	case 2:
+		maxN, classes = 2, verifAllClasses
+		s.preTx = true
+		if thorough {
+			maxN = 3
+		}
+	case 3:
+		maxN, classes = 3, verifExplicitClasses
+		if thorough {
 			maxN = 4
 		}
 	}
 	n := 1 + verifChoice("n", maxN)
-	s.tx = verifChoice("transaction", 2) == 1
-	s.roe = verifChoice("rollbackOnError", 2) == 1
-	if wide {
-		s.preTx = verifChoice("openTransactionLeftByEarlierRequest", 2) == 1
+	if band != 3 {
+		s.tx = verifChoice("transaction", 2) == 1
 	}
-	s.kinds = make([]int, n)
-	for i := range s.kinds {
-		s.kinds[i] = classes[verifChoice(verifName("class", i), len(classes))]
+	s.roe = verifChoice("rollbackOnError", 2) == 1
+	if band == 3 {
+		s.kinds = append(s.kinds, vBegin)
+	}
+	for i := 0; i < n; i++ {
+		c := classes[verifChoice(verifName("class", i), len(classes))]
 		// an explicit COMMIT/ROLLBACK inside a Transaction=true request deliberately ends the
 		// request's own transaction: outside the property
-		verifAssume(!(s.tx && (s.kinds[i] == vCommit || s.kinds[i] == vRollback)))
+		verifAssume(!(s.tx && (c == vCommit || c == vRollback)))
+		s.kinds = append(s.kinds, c)
 	}
 	return s
 }
